@@ -172,4 +172,40 @@ theorem roughlyContains_iff_sublist (input output : Bytes) :
     simp only [this, if_false]
     exact (isSubseq_iff_sublist _ _).mpr h
 
+
+/-! ## the search window -/
+
+theorem indexLF_none_iff (l : Bytes) : indexLF l = none ↔ LF ∉ l := by
+  induction l with
+  | nil => simp [indexLF]
+  | cons b t ih =>
+    simp only [indexLF]
+    by_cases hb : b = LF
+    · subst hb; simp
+    · have : (b == LF) = false := by simpa using hb
+      simp only [this, Bool.false_eq_true, if_false, Option.map_eq_none_iff, ih, List.mem_cons]
+      constructor
+      · intro h hh
+        rcases hh with hh | hh
+        · exact hb hh.symm
+        · exact h hh
+      · intro h hh; exact h (Or.inr hh)
+
+theorem indexLF_some (l : Bytes) (i : Nat) (h : indexLF l = some i) :
+    ∃ rest, l.drop i = LF :: rest := by
+  induction l generalizing i with
+  | nil => simp [indexLF] at h
+  | cons b t ih =>
+    simp only [indexLF] at h
+    split at h
+    · rename_i hb
+      simp only [Option.some.injEq] at h
+      subst h
+      have : b = LF := by simpa using hb
+      exact ⟨t, by simp [this]⟩
+    · simp only [Option.map_eq_some_iff] at h
+      obtain ⟨j, hj, rfl⟩ := h
+      obtain ⟨rest, hr⟩ := ih j hj
+      exact ⟨rest, by simpa using hr⟩
+
 end Scrapli.Chan
